@@ -566,7 +566,8 @@ class FilesParagraph(deb822.RestrictedWrapper):
         pat = self.files_pattern()
         if pat is None:
             return False
-        return pat.match(filename) is not None
+        # The whole filename must be matched by (at least) one of the globs.
+        return pat.fullmatch(filename) is not None
 
     files = deb822.RestrictedField(
         'Files', from_str=_SpaceSeparated.from_str,
